@@ -278,6 +278,13 @@ impl ty::TyModule {
         let path = engines.se().get_path(source_id);
         let include_tests = build_config.is_some_and(|x| x.include_tests);
         let key = ModuleCacheKey::new(path.clone().into(), include_tests);
+        #[cfg(feature = "fuellabs_sway_verif")]
+        crate::verif_hooks::cache::ty_decision(
+            engines,
+            &path.clone().into(),
+            include_tests,
+            build_config,
+        );
         let cache = engines.qe().module_cache.read();
         cache.get(&key).and_then(|entry| {
             entry.typed.as_ref().and_then(|typed| {
